@@ -116,6 +116,10 @@ def run(ctx):
         # binding self-test: move one recorded diagnostic out of the document
         k = next(i for i, r in enumerate(recs) if r["diags"])
         recs[k]["diags"][0][2] = 999
+    if os.environ.get("VERIF_SELFTEST") == "corrupt-errmsg":
+        # binding self-test: give one recorded parse error a message no diagnostic has
+        k = next(i for i, r in enumerate(recs) if r["errs"] and r["syn"] and not r["none"])
+        recs[k]["errs"][0][4] = 9999
     path = os.path.join(ctx.work, "recs.ndjson")
     with open(path, "w") as f:
         for r in recs:
